@@ -240,6 +240,26 @@ def run(index, rep, tier):
         nb = borrow(index, rep, "C12", {"R12.2"}, "R11.8")
         rep.floor("R11.8", "borrowed obligations", 4, nb)
 
+    # ---- R11.9 a list can be extended by itself
+    with rep.section("R11.9"):
+        rep.rule("R11.9", "a collection can be extended by itself: a method of TreeList that iterates directly over a parameter and grows the receiver inside that loop (`self._trees.append`, `self.append`, `self.insert`) walks a snapshot of the parameter (list(...)) - the parameter may be the receiver (`tl.extend(tl)`, `tl += tl`), and a list that grows while it is walked never ends")
+        n9 = 0
+        for fi in index.methods_of(TL):
+            for lp in walk_no_nested(fi.node):
+                if not (isinstance(lp, ast.For) and isinstance(lp.iter, ast.Name) and lp.iter.id in fi.params and lp.iter.id != "self"):
+                    continue
+                grows = [c for st in lp.body for c in ast.walk(st) if isinstance(c, ast.Call) and isinstance(c.func, ast.Attribute) and ((norm(c.func.value) == "self._trees" and c.func.attr in ("append", "insert", "extend")) or (norm(c.func.value) == "self" and c.func.attr in ("append", "insert", "extend", "add_tree")))]
+                if not grows:
+                    continue
+                n9 += 1
+                rep.check(False, "R11.9", fi.qualname, "`%s` walked while the receiver grows" % lp.iter.id, fn_where(fi, lp), "",
+                          "%s iterates `for ... in %s` and adds to the receiver inside the loop: when the argument is the receiver itself - tl.extend(tl), tl += tl - every tree appended is visited again and the call never returns; walk list(%s) instead" % (fi.qualname, lp.iter.id, lp.iter.id))
+            for lp in walk_no_nested(fi.node):
+                if isinstance(lp, ast.For) and isinstance(lp.iter, ast.Call) and call_name(lp.iter) in ("list", "tuple") and lp.iter.args and isinstance(lp.iter.args[0], ast.Name) and lp.iter.args[0].id in fi.params:
+                    n9 += 1
+                    rep.ob("R11.9", fn_where(fi, lp), "%s walks a snapshot of `%s`" % (fi.name, lp.iter.args[0].id), True)
+        rep.floor("R11.9", "loops over a parameter in TreeList methods", 0, n9)
+
 
 def _bound(index, fi, w, val):
     """is the stored value bound to self.taxon_namespace on every path?"""
